@@ -2,6 +2,6 @@ Require Extraction.
 Require Import ExtrOcamlBasic.
 From GoPdf.Base Require Import WireAnchor.
 From GoPdf.C01 Require Import Lex Obj Format.
-From GoPdf.C15 Require Import Content State.
+From GoPdf.C15 Require Import Content State BuilderModel.
 Separate Extraction wire_anchor cstd_limits mkLimits op_format cformat cscan ccanon
-  apply_op run_ops closing_ops can_close sop_of_name mkNS other_ok op_table.
+  apply_op run_ops closing_ops can_close sop_of_name mkNS other_ok op_table build_ops.
